@@ -35,6 +35,7 @@ import struct as _struct
 from iso_pyx import MemoryFault
 
 MAX_WRITTEN = {}
+ALLOCATED = {}
 
 class _Poison:
     def __repr__(self): return 'POISON'
@@ -68,6 +69,7 @@ class _Arr:
     """PyMem_Malloc(n * sizeof(T)) seen as T[n]"""
     def __init__(self, kind, n, name):
         self.kind = kind; self.a = [_P] * n; self.name = name; self.freed = False
+        ALLOCATED[name] = n                                # cells the C code asked PyMem_Malloc for
     def _chk(self, i, what):
         if self.freed: raise MemoryFault('%s after free of %s' % (what, self.name))
         if i < 0 or i >= len(self.a):
